@@ -52,6 +52,8 @@ type c15Case struct {
 	Disabled []string `json:"disabled,omitempty"`
 	// OtherFS: configuration, pid and cache files live on a file system other than the temporary directory's
 	OtherFS bool `json:"other_fs,omitempty"`
+	// Ambient: further valid settings the property does not depend on (verbose, dynamic-workers, cpu-cap)
+	Ambient map[string]string `json:"ambient,omitempty"`
 }
 
 const c15Rule = "case = 1..3 stop/start cycles of the real collector binary (2..8 workers per protocol; in about 3 of 4 cases a generated subset of the four protocols is switched off by configuration, at least one of IPFIX / NetFlow v9 stays on; rawSocket sink and restful stats owned by the harness, per-instance pid and cache files, in a quarter of the cases on a file system other than the temporary directory's) with 1..8 exporters on 127.0.0.x and ::1: " +
@@ -76,6 +78,7 @@ func genC15(t *rapid.T) c15Case {
 	}
 	c.Workers = rapid.IntRange(2, 8).Draw(t, "workers")
 	c.OtherFS = rapid.IntRange(0, 3).Draw(t, "otherfs") == 0
+	c.Ambient = genAmbient(t)
 	// which protocols run is a valid configuration choice: a collector for one or two protocols must stop as cleanly
 	c.Disabled = rapid.SampledFrom([][]string{nil, nil, nil, {"ipfix"}, {"nf9"}, {"ipfix", "nf5"}, {"nf9", "sflow"}, {"sflow", "nf5"}, {"ipfix", "sflow", "nf5"}, {"nf9", "sflow", "nf5"}, {"nf5"}}).Draw(t, "disabled")
 	tplProtos := []string{}
@@ -260,7 +263,7 @@ func runC15(c *c15Case) (v verdict, sig string, err error) {
 		if e != nil {
 			return v, "", e
 		}
-		proc, e := startVflow(dir, ports, e2eConfig{Workers: c.Workers, SinkAddr: sink.addr(), Disabled: disabled}, false)
+		proc, e := startVflow(dir, ports, e2eConfig{Workers: c.Workers, SinkAddr: sink.addr(), Disabled: disabled, Extra: c.Ambient}, false)
 		if e != nil {
 			if proc != nil && stderrProblem(proc.stderrText()) != "" {
 				return v, "start-crash", fmt.Errorf("cycle %d: collector crashed at start-up (cache files of the previous cycle): %s", ci, proc.stderrTail())
